@@ -50,6 +50,8 @@ pub struct Scn {
     /// the stop arrives (and the accept thread exits, closing the connection channel) while a worker is in the middle
     /// of one poll of its loop, between taking a connection and handing it to the service
     pub mid_poll: bool,
+    /// the server is built with `system_exit()` although it runs in a plain Tokio runtime without an Actix System
+    pub system_exit: bool,
     /// signal scenario (child process): 0 none, else the signal number
     pub signal: i32,
 }
@@ -88,6 +90,28 @@ impl Scn {
                 late_client: false,
                 stall: true,
                 mid_poll: false,
+                system_exit: false,
+                signal: 0,
+            };
+        }
+        if signal == 0 && r.chance(1, 14) {
+            // "wait for ever": the largest shutdown timeout that can be configured; every connection finishes on its own
+            let held = 1 + r.usize(2);
+            return Scn {
+                seed,
+                workers,
+                held,
+                graceful: true,
+                finish_ms: (0..workers * held).map(|_| Some(150 + r.below(500))).collect(),
+                timeout_s: u64::MAX,
+                variant: Variant::Plain,
+                rt: if r.chance(1, 3) { RtKind::Tokio } else { RtKind::Actix },
+                uds: r.chance(1, 4),
+                failpoints: false,
+                late_client: false,
+                stall: false,
+                mid_poll: false,
+                system_exit: false,
                 signal: 0,
             };
         }
@@ -107,9 +131,12 @@ impl Scn {
                 late_client: false,
                 stall: false,
                 mid_poll: true,
+                system_exit: false,
                 signal: 0,
             };
         }
+        let rt = if r.chance(1, 3) { RtKind::Tokio } else { RtKind::Actix };
+        let system_exit_here = rt == RtKind::Tokio && signal == 0 && r.chance(1, 2);
         Scn {
             seed,
             workers,
@@ -118,12 +145,13 @@ impl Scn {
             finish_ms,
             timeout_s: 1 + r.below(2),
             variant: *r.pick(&[Variant::Plain, Variant::Plain, Variant::StopTwice, Variant::DropFutureUnpolled, Variant::WhilePaused, Variant::RacingBurst, Variant::OtherThread]),
-            rt: if r.chance(1, 3) { RtKind::Tokio } else { RtKind::Actix },
+            rt,
             uds: r.chance(1, 4),
             failpoints: r.chance(1, 2),
             late_client: r.chance(1, 3),
             stall: false,
             mid_poll: false,
+            system_exit: system_exit_here,
             signal,
         }
     }
@@ -133,7 +161,7 @@ impl Scn {
         }
         format!(
             "w{} held{} g{} finish{:?} to{}s {:?} {:?} uds{} f{} late{}",
-            self.workers, self.held, self.graceful as u8, self.finish_ms, self.timeout_s, self.variant, self.rt, self.uds as u8, self.failpoints as u8, self.late_client as u8 + 2 * (self.stall as u8) + 4 * (self.mid_poll as u8)
+            self.workers, self.held, self.graceful as u8, self.finish_ms, self.timeout_s, self.variant, self.rt, self.uds as u8, self.failpoints as u8, self.late_client as u8 + 2 * (self.stall as u8) + 4 * (self.mid_poll as u8) + 8 * (self.system_exit as u8)
         )
     }
     pub fn to_json(&self) -> Value {
@@ -162,6 +190,8 @@ pub struct Seen {
     pub stall_scenarios: u64,
     pub mid_poll_scenarios: u64,
     pub signal_before_handlers: u64,
+    pub system_exit_without_system: u64,
+    pub max_timeout_scenarios: u64,
 }
 
 pub enum Outcome {
@@ -192,6 +222,13 @@ pub fn run_scenario(scn: &Scn, seen: &mut Seen) -> Outcome {
         verif::set_failpoints(&[], 0);
     }
     verif::start_recording();
+    if scn.system_exit {
+        engine::SYSTEM_EXIT_NEXT.store(true, Ordering::SeqCst);
+        seen.system_exit_without_system += 1;
+    }
+    if scn.timeout_s == u64::MAX {
+        seen.max_timeout_scenarios += 1;
+    }
     let cfg = ServerCfg {
         workers: scn.workers,
         limit: 4,
@@ -309,7 +346,7 @@ pub fn run_scenario(scn: &Scn, seen: &mut Seen) -> Outcome {
     } else {
         None
     };
-    let watchdog = Duration::from_secs(scn.timeout_s + 6);
+    let watchdog = Duration::from_secs(if scn.timeout_s > 100 { 10 } else { scn.timeout_s + 6 });
     let t_stop = Instant::now();
     *stop_issued.lock().unwrap() = Some(t_stop);
     if scn.stall {
@@ -449,7 +486,7 @@ pub fn run_scenario(scn: &Scn, seen: &mut Seen) -> Outcome {
                         }
                         let client_closed_before = log[..r.seq as usize].iter().any(|x| matches!(&x.ev, Ev::User { kind: "client_close", a: c2, .. } if c2 == a));
                         let after_ms = (r.t_us - t_stop_us) / 1000;
-                        if !client_closed_before && after_ms + 50 < scn.timeout_s * 1000 {
+                        if !client_closed_before && after_ms + 50 < scn.timeout_s.saturating_mul(1000) {
                             let stop_seen: Vec<String> = log
                                 .iter()
                                 .filter(|r| matches!(r.ev, Ev::WorkerStopSeen { .. } | Ev::WorkerDrop { .. } | Ev::AcceptExit) || matches!(&r.ev, Ev::User { kind: "cmd_stop" | "stop_resolved", .. }))
